@@ -7,7 +7,7 @@ L=/tmp/lanes/$N
 rm -rf $L; mkdir -p $L
 trap '' PIPE
 trap 'cd /; git -C /repo worktree remove --force $L/repo 2>/dev/null; rm -rf $L' EXIT
-git -C /repo worktree prune; git -C /repo worktree add -q --detach $L/repo HEAD || exit 2
+git -C /repo worktree add -q --detach $L/repo HEAD || exit 2
 if [ "$P" != "-" ]; then git -C $L/repo apply "$(realpath $P)" || { echo "$N PATCH DOES NOT APPLY"; git -C /repo worktree remove --force $L/repo; exit 2; }; fi
 rsync -a --exclude .git --exclude replays --exclude evidence ${VERIF_SRC:-/verif}/ $L/verif/
 cd $L/verif
